@@ -296,7 +296,7 @@ var StructTypes = []reflect.Type{
 	T(CN1{}), T(CN2{}), T(NMapHolder{}),
 	T(ManyF{}), T(ManyL{}),
 	T(Node{}), T(FNode{}), T(Ping{}), T(Pong{}), T(ENode{}), T(DeepNil{}),
-	T(MapAndLists{}), T(Wrap{}), T(WrapList{}), T(PtrTime{}), T(Named{}), T(SelfAny{}), T(SelfAnyList{}), T(PtrConts{}), T(MutA{}), T(MutB{}), T(MpKeyStruct{}), T(MutGraph{}), T(NonASCII{}), T(RecConts{}), T(AmpTop{}), T(AmpN{}), T(FloatMix{}), T(Forest{}), T(CaseTwins{}), T(Bags{}), T(PtrNamed{}), T(NonASCIIFirst{}), T(IntMix{}), T(Empty{}), T(NumMaps{}), T(BaseEnt{}), T(PlainEnt{}), T(AccountEnt{}), T(PtrBaseEnt{}), T(Ents{}),
+	T(MapAndLists{}), T(Wrap{}), T(WrapList{}), T(PtrTime{}), T(Named{}), T(SelfAny{}), T(SelfAnyList{}), T(PtrConts{}), T(MutA{}), T(MutB{}), T(MpKeyStruct{}), T(MutGraph{}), T(NonASCII{}), T(RecConts{}), T(AmpTop{}), T(AmpN{}), T(FloatMix{}), T(Forest{}), T(CaseTwins{}), T(Bags{}), T(PtrNamed{}), T(NonASCIIFirst{}), T(IntMix{}), T(Empty{}), T(NumMaps{}), T(BaseEnt{}), T(PlainEnt{}), T(AccountEnt{}), T(PtrBaseEnt{}), T(Ents{}), T(NamedLists{}),
 }
 
 // TypeByName finds a zoo struct type.
@@ -503,6 +503,25 @@ type Label string
 type Flag bool
 type Ratio float64
 type Small float32
+
+type Perm uint8
+type Digest []byte // a named byte slice is a list of integers on the wire, only []byte itself is binary
+
+// BytesType is the one Go type that travels as binary.
+var BytesType = reflect.TypeOf([]byte(nil))
+
+// NamedLists: lists whose element type is a named basic type, of every kind.
+type NamedLists struct {
+	P  []Perm
+	D  Digest
+	R  []Ratio
+	Sm []Small
+	F  []Flag
+	ID []BigID
+	Lv []Level
+	PM map[string][]Perm
+	B  []byte
+}
 
 type Named struct {
 	St Status
@@ -732,3 +751,39 @@ type Forest struct {
 // AmpTop / AmpN: every element of a list refers back to the list (queued destinations).
 type AmpTop struct{ L []*AmpN }
 type AmpN struct{ R []interface{} }
+
+// ---- version skew through the Go encoder itself: a peer that runs a newer version of a class sends fields the
+// receiver's version does not have, of every kind, between the ones it has.
+
+type SkewNew struct {
+	A   int32
+	X1  float64
+	B   string
+	X2  time.Time
+	X3  string
+	C   []int32
+	X4  *Inner
+	D   *Inner
+	X5  []string
+	X6  map[string]int32
+	E   int64
+	X7  float32
+	X8  []byte
+	X9  int64
+	X10 bool
+	X11 []*Inner
+	F   []*Inner
+	X12 []float64
+	X13 []time.Time
+	G   string
+}
+
+type SkewOld struct {
+	A int32
+	B string
+	C []int32
+	D *Inner
+	E int64
+	F []*Inner
+	G string
+}
